@@ -149,8 +149,8 @@ def run(module: str, cfg: str | None = None, *, workdir: str | None = None,
         cmd += [module if module.endswith(".tla") else module + ".tla"]
         e = dict(os.environ)
         e.update(env or {})
-        if java_opts:
-            e["JAVA_TOOL_OPTIONS"] = java_opts
+        # the default heap (25% of 62 GB) costs minutes of sys time in page faults: cap it
+        e["JAVA_TOOL_OPTIONS"] = (os.environ.get("VERIF_JAVA_OPTS", "-Xmx6g -Xms512m") + " " + (java_opts or "")).strip()
         t0 = time.time()
         try:
             p = subprocess.run(cmd, cwd=wd, env=e, capture_output=True, text=True, timeout=timeout)
@@ -248,3 +248,46 @@ def sany(path: str) -> tuple[bool, str]:
     out = p.stdout + p.stderr
     ok = p.returncode == 0 and "Fatal errors" not in out and "*** Errors" not in out and "Semantic errors" not in out
     return ok, out
+
+
+def mc_files(name: str, base: str, consts: dict, *, invariants=(), properties=(), level=None,
+             spec="Spec", view=None, extra_defs: str = "", constraints=()):
+    """Generate (files dict, module name, cfg name) for a model: constants are given as TLA+
+    expressions and bound with '<-' to definitions in a generated module (the cfg syntax
+    cannot express negative numbers or sets of records)."""
+    defs = []
+    cfgc = []
+    for k, v in consts.items():
+        defs.append(f"c_{k} == {v}")
+        cfgc.append(f"  {k} <- c_{k}")
+    cons = list(constraints)
+    if level is not None:
+        defs.append(f"LevelBound == TLCGet(\"level\") <= {level}")
+        cons.append("LevelBound")
+    mod = f"---- MODULE {name} ----\nEXTENDS {base}, TLC\n" + "\n".join(defs) + "\n" + extra_defs + "\n====\n"
+    cfg = [f"SPECIFICATION {spec}", "CONSTANTS"] + cfgc
+    cfg += [f"CONSTRAINT {c}" for c in cons]
+    cfg += [f"INVARIANT {i}" for i in invariants]
+    cfg += [f"PROPERTY {p}" for p in properties]
+    if view:
+        cfg.append(f"VIEW {view}")
+    cfg.append("CHECK_DEADLOCK FALSE")
+    return {f"{name}.tla": mod, f"{name}.cfg": "\n".join(cfg) + "\n"}, name, f"{name}.cfg"
+
+
+def tla_set(xs):
+    return "{" + ", ".join(tla_lit(x) for x in xs) + "}"
+
+
+def tla_lit(x):
+    if isinstance(x, bool):
+        return "TRUE" if x else "FALSE"
+    if isinstance(x, int):
+        return str(x) if x >= 0 else f"(0 - {-x})"
+    if isinstance(x, str):
+        return '"' + x + '"'
+    if isinstance(x, (list, tuple)):
+        return "<<" + ", ".join(tla_lit(y) for y in x) + ">>"
+    if isinstance(x, (set, frozenset)):
+        return tla_set(sorted(x, key=repr))
+    raise TypeError(x)
